@@ -171,7 +171,11 @@ func newCoreDriver(w *CoreWorld) (*coreDriver, error) {
 		events.Init() // event system exists but is not started: events are dropped
 	})
 	// timers never fire on their own: the harness fires them explicitly
-	objects.VerifCoreSetTimeouts(1000*time.Hour, 1000*time.Hour, 0, 0)
+	resWait := 60 * time.Minute
+	if w.ResWaitOn {
+		resWait = time.Nanosecond
+	}
+	objects.VerifCoreSetTimeouts(1000*time.Hour, 1000*time.Hour, 0, resWait)
 	if w.ResDelayOn {
 		objects.SetReservationDelay(time.Nanosecond)
 	} else {
